@@ -59,6 +59,7 @@ type world struct {
 	sim        *simrt.Sim
 	bodies     map[string]*bodySpec // label -> how its body behaves (from the spec)
 	failing    map[string]bool      // labels whose body fails in the current build
+	runNo      int                  // 1 or 2: which Run of the current process (see buildOpts.Between)
 	written    map[string]string    // label -> text the body wrote to stdout in the current build (concatenated)
 	chunkT     *simrt.Tape
 	keyOf      func(label string) string
@@ -204,6 +205,7 @@ func (w *world) simBody(thread *starlark.Thread, fn *starlark.Builtin, args star
 	}
 	defer func() { w.running-- }()
 	s := w.sim
+	startedInRun := w.runNo
 	for i := 0; i < spec.Yields; i++ {
 		s.Yield("body", lbl)
 	}
@@ -250,7 +252,7 @@ func (w *world) simBody(thread *starlark.Thread, fn *starlark.Builtin, args star
 		}
 		w.written[lbl] += spec.Text
 	}
-	if w.failing[lbl] {
+	if w.failing[lbl] && w.runNo != 2 {
 		if w.failLate {
 			// the command fails after it has (half) written its outputs
 			for _, out := range spec.Outs {
@@ -263,6 +265,12 @@ func (w *world) simBody(thread *starlark.Thread, fn *starlark.Builtin, args star
 	}
 	// write outputs
 	content := hashBytes(parts...) + "\n"
+	if startedInRun == 1 && w.runNo == 2 {
+		// a command left over from the previous run of this process that has read its inputs
+		// and is slow to write its outputs: it sleeps until nothing else is runnable
+		w.ctx.St.Probes["body_of_the_previous_run_still_running"]++
+		s.SleepUntil(s.Now() + int64(time.Hour))
+	}
 	for _, out := range spec.Outs {
 		s.Yield("body.write", lbl)
 		os.MkdirAll(filepath.Dir(out), 0755)
@@ -321,6 +329,7 @@ type procResult struct {
 	Loaded      bool
 	Ran         bool
 	FirstRunErr error
+	GCErr       error
 	Proj        *Project
 }
 
@@ -362,11 +371,18 @@ type buildOpts struct {
 	Keep        *Project // REPL: run again on this loaded Project without reloading
 	Reuse       *Project // watch mode: Reload this Project instead of loading afresh
 	DryThenNil  int      // 1: dry run then Run(label, nil) on the same Project; 2: with a Reload in between (as Watch does)
+	// Between (with SecondRun): called by the process between its two runs - an edit that
+	// lands right after a build returned, followed by a rebuild in the same process (watch
+	// mode, the REPL). Bodies told to fail fail in the first run only.
+	Between func()
+	// GCAfter: the process collects garbage on its Project as soon as Run has returned.
+	GCAfter bool
 }
 
 // process runs one simulated dawn process: Load, then (optionally) GC and/or Run.
 func (w *world) process(name string, pc procCfg, bo buildOpts, stepHook func(step int, kind, detail string)) *procResult {
 	res := &procResult{}
+	w.runNo = 0
 	s := w.newSim(name, pc, stepHook)
 	w.sim = s
 	w.chunkT = w.ctx.Tapes.Get(name + ".chunks")
@@ -411,10 +427,18 @@ func (w *world) process(name string, pc procCfg, bo buildOpts, stepHook func(ste
 			res.Ran = true
 			return
 		}
+		w.runNo = 1
 		res.RunErr = proj.Run(l, &RunOptions{Always: bo.Always, DryRun: bo.DryRun})
 		if bo.SecondRun {
 			res.FirstRunErr = res.RunErr
+			if bo.Between != nil {
+				bo.Between()
+				w.runNo = 2
+			}
 			res.RunErr = proj.Run(l, &RunOptions{Always: bo.Always, DryRun: bo.DryRun})
+		}
+		if bo.GCAfter {
+			res.GCErr = proj.GC()
 		}
 		res.Ran = true
 	})
